@@ -17,7 +17,7 @@ class Prog:
         self.segments = []            # dicts: type,flags,align,vaddr,paddr,members (user-section numbers, 0-based), nested_in
 
 
-def gen_prog(rng, cfg=None, nsec=None, nseg=None, allow_nested=True, allow_compr_nocreate=False, small=False, nonalloc_members=False, under_aligned=None, nested_focus=False, allow_skipping=True):
+def gen_prog(rng, cfg=None, nsec=None, nseg=None, allow_nested=True, allow_compr_nocreate=False, small=False, nonalloc_members=False, under_aligned=None, nested_focus=False, allow_skipping=True, bss_focus=False):
     if under_aligned is None:
         under_aligned = rng.random() < 0.3
     p = Prog()
@@ -52,20 +52,38 @@ def gen_prog(rng, cfg=None, nsec=None, nseg=None, allow_nested=True, allow_compr
                  addralign=rng.choice(ALIGNS), entsize=rng.choice([0, 0, 4, 8, 16, rval(rng, 16)]), addr=None, data=None, size=0, seg=None)
         if nobits:
             s["size"] = rng.choice([0, 1, 16, 4096, 100])
+        elif rng.random() < 0.08 and not nested_focus:
+            # a data section that is only given a size (set_size without set_data): room reserved in the file, no buffer
+            s["size"] = rng.choice([1, 8, 24, 96]); s["reserved"] = True
         else:
             n = rng.choice([0, 1, 3, 4, 5, 16, 17, 64]) if small else rng.choice([0, 1, 4, 5, 16, 17, 100, 255, 300, rng.randint(0, 300)])
             if nested_focus and i < 4 and n == 0:
                 n = 5
             s["data"] = rbytes(rng, n); s["size"] = n
         p.sections.append(s)
+    if bss_focus and len(p.sections) >= 2:
+        # programs aimed at a loadable segment without file contents: the first section is no-bits and gets a segment of
+        # its own, the second is a program section and opens the next segment (same alignment, same address residue)
+        p.sections[0].update(type=8, flags=3, data=None, size=rng.choice([16, 4096]), addralign=rng.choice([4, 16]))
+        p.sections[0].pop("reserved", None)
+        p.sections[1].update(type=1, flags=6, addralign=rng.choice([1, 4, 16]))
+        p.sections[1].pop("reserved", None)
+        if not p.sections[1].get("data"):
+            p.sections[1]["data"] = rbytes(rng, 24); p.sections[1]["size"] = 24
     # ---- segments over runs of allocated, non-empty sections (no-bits only last)
     # empty data sections may be members too (a quarter of the programs; only in segments whose members the writer
     # addresses itself: an empty section with an explicit address leaving a gap is the analogue of the recorded
     # no-bits gap finding and is left out)
     empty_members = rng.random() < 0.25
-    free = [i for i, s in enumerate(p.sections) if ((s["flags"] & 2) or (nonalloc_members and s["type"] != 8 and i % 3 == 0)) and (s["size"] > 0 or (empty_members and s["type"] != 8))]
+    free = [i for i, s in enumerate(p.sections) if not s.get("reserved") and ((s["flags"] & 2) or (nonalloc_members and s["type"] != 8 and i % 3 == 0)) and (s["size"] > 0 or (empty_members and s["type"] != 8))]
     used = set()
     vbase = rng.choice([0x1000, 0x8048000, 0x400000, 0x10000])
+    if bss_focus and len(p.sections) >= 2:
+        al_ = rng.choice([0x1000, 0x10000, 16])
+        for m_, va_ in ((0, 0x600000), (1, 0x700000)):
+            g = dict(type=1, flags=6, align=al_, vaddr=va_, paddr=va_, members=[m_], explicit=False, nested_in=None)
+            p.segments.append(g); used.add(m_)
+        vbase = 0x800000
     for j in range(nseg):
         cand = [i for i in free if i not in used]
         g = dict(type=rng.choice([1, 1, 1, 2, 4, 0x6474e551, 0, 1]), flags=rng.choice([4, 5, 6, 7]), align=rng.choice([0, 1, 4, 16, 0x1000, 0x10000]),
@@ -179,9 +197,17 @@ def gen_prog(rng, cfg=None, nsec=None, nseg=None, allow_nested=True, allow_compr
                 p.lines.append("secset %d %s %d" % (idx, f, s[f]))
         if s["addr"] is not None:
             p.lines.append("secset %d addr %d" % (idx, s["addr"]))
-        if s["type"] == 8:
+        if s["type"] == 8 or s.get("reserved"):
             p.lines.append("secset %d size %d" % (idx, s["size"]))
         elif rng.random() < 0.7 or not s["data"]:
+            if rng.random() < 0.2:
+                # the contents are replaced: something else (longer, or built up by appends) is put in first
+                junk_ = rbytes(rng, len(s["data"]) + rng.choice([1, 8, 40]))
+                if rng.random() < 0.5:
+                    p.lines.append("dset %d %s" % (idx, hx(junk_)))
+                else:
+                    p.lines.append("dapp %d %s" % (idx, hx(junk_[:len(junk_) // 2 + 1])))
+                    p.lines.append("dapp %d %s" % (idx, hx(junk_[len(junk_) // 2 + 1:] or b"\x01")))
             p.lines.append("dset %d %s" % (idx, hx(s["data"])))
         else:
             cut = rng.randint(0, len(s["data"]))
@@ -246,6 +272,8 @@ def prog_from_lines(lines):
     for s in p.sections:
         if s["type"] == 8:
             s["data"] = None
+        elif s["data"] is None and s["size"] > 0:
+            s["reserved"] = True
     for g in p.segments:
         for m in g["members"]:
             if 0 <= m < len(p.sections):
